@@ -3,7 +3,7 @@
 From Coq Require Import List ZArith NArith Bool Lia.
 From Coq.Strings Require Import Byte.
 From RimeV Require Import Base.Bytes Eng.Keys Eng.Cand Eng.Segm Eng.Ctx Eng.Engine Eng.Procs Eng.Api Eng.Oracle
-     Eng.Trans Eng.Spec Eng.WfView Eng.Utf8Proofs Eng.WfProofs Eng.InvProofs Eng.PunctProofs Eng.KbProofs Gen.Keymaps Gen.EngFacts.
+     Eng.Trans Eng.Spec Eng.WfView Eng.Utf8Proofs Eng.WfProofs Eng.InvProofs Eng.PunctProofs Eng.KbProofs Eng.AsciiProofs Gen.Keymaps Gen.EngFacts.
 Import ListNotations.
 
 (** Source fact (gen/eng_facts.py, re-read from src/rime/context.cc on every
@@ -162,3 +162,10 @@ Theorem C02_key_binder_example :
           (snd (run cfg (synth_translate cfg) kb_example_ops)) = true.
 Proof. exact kb_guarded_ok. Qed.
 Print Assumptions C02_key_binder_example.
+
+(** round 4: the stock chain order with ascii_composer first and ascii_segmentor (synth_ascii_express / synth_ascii_fluid) *)
+Theorem C02_wf_reported_synth_ascii :
+  forall fluid dlog ops,
+    forallb wf_obsb (snd (run (synth_ascii_cfg fluid dlog) (synth_translate (synth_ascii_cfg fluid dlog)) ops)) = true.
+Proof. exact RimeV.Eng.AsciiProofs.wf_reported_synth_ascii. Qed.
+Print Assumptions C02_wf_reported_synth_ascii.
